@@ -56,7 +56,7 @@ func genProg(r *vh.Rng, nwf int, mem bool) []Stmt {
 			if !mem {
 				continue
 			}
-			op := []string{"fload", "sload", "floadu", "fstore", "fload", "gload", "gstore", "scload", "scstore", "sload2", "sload2", "gloadg"}[r.Intn(12)]
+			op := []string{"fload", "sload", "floadu", "fstore", "fload", "gload", "gstore", "scload", "scstore", "sload2", "sload2", "gloadg", "sx2", "sx4b", "sx8"}[r.Intn(15)]
 			if isStore[op] && pendingStore {
 				sync()
 			}
@@ -149,7 +149,7 @@ func genProg(r *vh.Rng, nwf int, mem bool) []Stmt {
 
 // fixed shapes that aim at particular corners
 func corner(r *vh.Rng, k int) Case {
-	switch k % 13 {
+	switch k % 15 {
 	case 0: // many small groups on one CU: more waiting wavefronts than the barrier buffer holds
 		return Case{Name: "full-barrier-buffer", NWf: 2, NWg: 20, Prog: []Stmt{
 			{Op: "sload", G: "eq", K: 1}, {Op: "sload", G: "eq", K: 1}, {Op: "waitcnt", A: 15, B: 0, G: "eq", K: 1},
@@ -263,6 +263,36 @@ func corner(r *vh.Rng, k int) Case {
 			fl = append(fl, fl[0]+60+r.Intn(200))
 		}
 		return Case{Name: "flush-restart-with-memory-in-flight", NWf: 1 + r.Intn(4), NWg: 1 + r.Intn(3), Flush: fl, Prog: p}
+	case 12: // a wavefront leaves with loads/stores in flight and NO s_waitcnt before s_endpgm while all its siblings wait at the barrier
+		n := 2 + r.Intn(5)
+		x := r.Intn(n)
+		var p []Stmt
+		for i := 0; i < 1+r.Intn(3); i++ { // slow accesses: 64 lines per wavefront
+			p = append(p, Stmt{Op: []string{"floadg", "gloadg", "floadg", "sx8b", "gstore"}[r.Intn(5)], G: "eq", K: x})
+		}
+		p = append(p, Stmt{Op: "endpgm", G: "eq", K: x}, Stmt{Op: "barrier"}, Stmt{Op: "salu"})
+		if r.Intn(2) == 0 {
+			p = append(p, Stmt{Op: "barrier"})
+		}
+		p = append(p, Stmt{Op: "endpgm"})
+		return Case{Name: "exit-with-memory-in-flight-while-siblings-wait", NWf: n, NWg: 1 + r.Intn(3), Prog: p}
+	case 13: // scalar loads of every width whose byte range straddles a 64-byte line
+		var p []Stmt
+		pairs := [][2]string{{"sx2", "sux2"}, {"sx4a", "sux4"}, {"sx4b", "sux4"}, {"sx4c", "sux4"}, {"sx8", "sux8"}, {"sx8b", "sux8"}, {"sx4n", "sux4"}}
+		for i := 0; i < 2+r.Intn(4); i++ {
+			q := pairs[r.Intn(len(pairs))]
+			p = append(p, Stmt{Op: q[0]}, Stmt{Op: "waitcnt", A: 15, B: []int{0, 0, 0, 1}[r.Intn(4)]})
+			if p[len(p)-1].B == 0 {
+				p = append(p, Stmt{Op: q[1]})
+			}
+		}
+		last := pairs[r.Intn(6)]
+		if r.Intn(2) == 0 { // end right after a straddling load: s_endpgm has to wait for both halves
+			p = append(p, Stmt{Op: "waitcnt", A: 15, B: 0}, Stmt{Op: "gstore"}, Stmt{Op: last[0]}, Stmt{Op: "endpgm"})
+		} else {
+			p = append(p, Stmt{Op: "waitcnt", A: 15, B: 0}, Stmt{Op: "gstore"}, Stmt{Op: "endpgm"})
+		}
+		return Case{Name: "straddling-scalar-loads", NWf: 1 + r.Intn(3), NWg: 1 + r.Intn(3), Prog: p}
 	default: // exit with memory still in flight
 		return Case{Name: "exit-with-mem-in-flight", NWf: 1 + r.Intn(3), NWg: 1 + r.Intn(2), Prog: []Stmt{
 			{Op: "fload"}, {Op: "sload"}, {Op: "vmov"}, {Op: "fstore"}, {Op: "sload"}, {Op: "endpgm"}}}
